@@ -15,7 +15,7 @@ package main
 // case line:  <scenario> <loglevel> <fakemode> <sourcepw-hex> <targetpw-hex>
 // fakemode: ok | autherr (AUTH rejected) | mute (never answers) | tgtdown / srcdown (connection refused) | oklong (ok, 12 s) |
 //           tls (TLS on in the tool, plain-text peers: handshake fails) | tlsdown (TLS on, peers down: dial fails) |
-//           slave (every peer answers role:slave)
+//           slave (every peer answers role:slave) | rst (every connection is reset right after the accept)
 
 import (
 	"bufio"
@@ -56,7 +56,7 @@ func init() {
 
 var c19Scenarios = []string{"echo", "sync", "synccluster", "syncresume", "synctgtcluster", "restore", "rump", "dump", "decode", "supervise"}
 var c19Levels = []string{"none", "error", "warn", "info", "debug"}
-var c19Fakes = []string{"ok", "autherr", "mute", "tgtdown", "srcdown", "tls", "tlsdown", "slave"}
+var c19Fakes = []string{"ok", "autherr", "mute", "tgtdown", "srcdown", "tls", "tlsdown", "slave", "rst"}
 
 const c19Alnum = "ABCDEFGHIJKLMNOPQRSTUVWXYZabcdefghijklmnopqrstuvwxyz0123456789"
 
@@ -101,6 +101,17 @@ func genC19(g *gen) {
 	emit("sync", "debug", "srcdown", g.r.Intn(5))
 	emit("rump", "info", "tgtdown", g.r.Intn(5))
 	emit("synctgtcluster", "debug", "tgtdown", g.r.Intn(5))
+	// the peer resets every connection right after accepting it (several times: whether the reset beats the tool's first write
+	// is a race; either way nothing may leak)
+	for i := 0; i < g.pick(2, 6); i++ {
+		emit("sync", "debug", "rst", g.r.Intn(5))
+		emit("restore", "debug", "rst", g.r.Intn(5))
+		emit("rump", "info", "rst", g.r.Intn(5))
+	}
+	// the handshake helper on connections failing at each point
+	for _, fm := range []string{"wfail", "wshort", "rfail", "autherr", "garbage", "ok"} {
+		emit("authconn", []string{"debug", "info", "error"}[g.r.Intn(3)], fm, g.r.Intn(5))
+	}
 	// TLS enabled, handshake or dial failing: the error paths of the TLS connect helpers
 	emit("sync", "debug", "tls", g.r.Intn(5))
 	emit("supervise", "debug", "tls", g.r.Intn(5))
@@ -283,6 +294,50 @@ func c19RDB() []byte {
 	return b.Bytes()
 }
 
+// c19FaultConn: a net.Conn that fails at the point its mode names
+type c19FaultConn struct {
+	mode  string
+	addr  string
+	reply []byte
+}
+
+type c19Addr string
+
+func (a c19Addr) Network() string { return "tcp" }
+func (a c19Addr) String() string  { return string(a) }
+
+func (c *c19FaultConn) Write(p []byte) (int, error) {
+	switch c.mode {
+	case "wfail", "rst":
+		return 0, fmt.Errorf("write tcp %s: write: connection reset by peer", c.addr)
+	case "wshort":
+		return len(p) / 2, io.ErrShortWrite
+	case "autherr":
+		c.reply = []byte("-ERR invalid password\r\n")
+	case "garbage":
+		c.reply = []byte("$3\r\nfoo\r\n")
+	case "mute", "rfail":
+		c.reply = nil
+	default:
+		c.reply = []byte("+OK\r\n")
+	}
+	return len(p), nil
+}
+func (c *c19FaultConn) Read(p []byte) (int, error) {
+	if len(c.reply) == 0 {
+		return 0, fmt.Errorf("read tcp %s: i/o timeout", c.addr)
+	}
+	n := copy(p, c.reply[:1])
+	c.reply = c.reply[n:]
+	return n, nil
+}
+func (c *c19FaultConn) Close() error                       { return nil }
+func (c *c19FaultConn) LocalAddr() net.Addr                { return c19Addr("127.0.0.1:1") }
+func (c *c19FaultConn) RemoteAddr() net.Addr               { return c19Addr(c.addr) }
+func (c *c19FaultConn) SetDeadline(t time.Time) error      { return nil }
+func (c *c19FaultConn) SetReadDeadline(t time.Time) error  { return nil }
+func (c *c19FaultConn) SetWriteDeadline(t time.Time) error { return nil }
+
 func c19StartFake(mode string) *c19Fake {
 	ln, err := net.Listen("tcp", "127.0.0.1:0")
 	if err != nil {
@@ -336,6 +391,15 @@ func c19ReadCmd(r *bufio.Reader) ([]string, error) {
 func c19Bulk(s string) string { return fmt.Sprintf("$%d\r\n%s\r\n", len(s), s) }
 
 func (f *c19Fake) serve(c net.Conn) {
+	if f.mode == "rst" {
+		// a peer (or a balancer in front of it) that resets the connection right after accepting it: whichever handshake
+		// command the tool is writing at that moment fails in Write, not in the reply
+		if tc, ok := c.(*net.TCPConn); ok {
+			tc.SetLinger(0)
+		}
+		c.Close()
+		return
+	}
 	defer c.Close()
 	r := bufio.NewReader(c)
 	_, portStr, _ := net.SplitHostPort(f.addr())
@@ -498,6 +562,28 @@ func c19Child(f []string) {
 
 	var runner base.Runner
 	switch scenario {
+	case "authconn":
+		// the exported handshake helper, as OpenNetConn and the reconnect loop of incremental sync call it, on a connection that
+		// fails at a chosen point (the fake-mode field names the fault): Write fails | the reply never comes | error reply |
+		// garbage reply | +OK. Returned errors are logged the way the callers log them.
+		o.Type = conf.TypeSync
+		for i, cred := range [][2]string{{"auth", spw}, {"adminauth", tpw}} {
+			func() {
+				defer func() {
+					if e := recover(); e != nil {
+						fmt.Println("CHILD helper ended:", e)
+					}
+				}()
+				fc := &c19FaultConn{mode: mode, addr: fmt.Sprintf("10.0.0.%d:6379", i+2)}
+				if err := utils.AuthPassword(fc, cred[0], cred[1]); err != nil {
+					log.Errorf("auth failed: %v", err)
+					log.Warnf("connect %s: %s", fc.addr, err.Error())
+				} else {
+					log.Infof("auth %s ok", fc.addr)
+				}
+			}()
+		}
+		return
 	case "echo":
 		// all four password fields set (sanitize normally rejects raw+encoding together; the echo must mask each)
 		o.SourcePasswordEncoding = spw
